@@ -154,6 +154,10 @@ func CheckC16(e *fw.Env, l *Lab) {
 		{Kind: "hyp", Domain: 1, TokenID: w.Hyp.TokenUSDC.Bytes(), Recipient: mint, GasLimit: &zero, MaxFee: &spec.Coin{Denom: world.USDN, Amount: "0"}},
 		{Kind: "hyp", Domain: 10, TokenID: w.Hyp.TokenUSDN.Bytes(), Recipient: mint, GasLimit: &zero, MaxFee: &spec.Coin{Denom: world.USDN, Amount: "0"}},
 		{Kind: "internal", To: rcpt},
+		// a positive maximum interchain fee in the transferred denomination itself: an upper bound
+		// on what the mailbox's hooks may charge, not a part of the coin to set aside
+		{Kind: "hyp", Domain: 1, TokenID: w.Hyp.TokenUSDC.Bytes(), Recipient: mint, GasLimit: &zero, MaxFee: &spec.Coin{Denom: world.USDC, Amount: "2500"}},
+		{Kind: "hyp", Domain: 10, TokenID: w.Hyp.TokenUSDN.Bytes(), Recipient: mint, GasLimit: &zero, MaxFee: &spec.Coin{Denom: world.USDN, Amount: "777"}},
 	}
 	for pi, pair := range w.Channels {
 		for di, dn := range all {
@@ -194,7 +198,7 @@ func CheckC16(e *fw.Env, l *Lab) {
 						}
 					}
 				}
-				e.Res.Sig("other-denoms-held|%s|%s|fee=%v|%s", rt.Kind, dn, s.HasFee, outcomeClass(o))
+				e.Res.Sig("other-denoms-held|%s|%s|fee=%v|maxfee=%v|%s", rt.Kind, dn, s.HasFee, rt.MaxFee != nil && rt.MaxFee.Amount != "0", outcomeClass(o))
 			}
 		}
 	}
